@@ -84,7 +84,7 @@ def bounds(tier):
 
 
 def plan(tier, seed):
-    ch = [{'k': 'words'}, {'k': 'flags'}, {'k': 'types'}, {'k': 'registry'}, {'k': 'maint'}, {'k': 'summary'}]
+    ch = [{'k': 'words'}, {'k': 'flags'}, {'k': 'types'}, {'k': 'registry'}, {'k': 'maint'}, {'k': 'summary'}, {'k': 'many'}]
     for i in range(len(SEQ) + 1):
         ch.append({'k': 'seq', 'first': i})
     if tier == 'quick':
@@ -222,6 +222,20 @@ def run_chunk(chunk):
                     c['fru']['pn'] = name
                     _do(res, {'callouts': [c, SEQ[0]]}, plugins=plugins, creator=creator)
                     _do(res, {'callouts': [SEQ[5], c]}, plugins=plugins, creator=creator)
+    elif k == 'many':
+        # callout subsections on both sides of the 255-word / 1 KiB and the 16 KiB marks
+        big = mk_callout(0x0D, 0x10, PCES[3], 15, 80, 0x48, 20)
+        for n in (4, 5, 6, 7, 8, 10, 12, 16, 32, 64, 100, 200):
+            for t in ('PS', 'SS'):
+                _do(res, {'t': t, 'callouts': [SEQ[i % len(SEQ)] for i in range(n)]})
+                if n <= 64:
+                    cs = []
+                    for i in range(n):
+                        c = json.loads(json.dumps(big))
+                        c['loc'] = (LOCTXT * 2)[i:i + 80]
+                        c['fru']['sn'] = 'SN%010d' % i
+                        cs.append(c)
+                    _do(res, {'t': t, 'callouts': cs})
     elif k == 'summary':
         _summary(res)
     elif k == 'seq':
